@@ -301,7 +301,7 @@ namespace link_layer {
                         return true;
                     }
 
-                    link_layer.defered_ll_control_pdu_     = pdu;
+                    link_layer.defer_ll_control_pdu( pdu );
                     link_layer.defered_conn_event_counter_ = ::bluetoe::details::read_16bit( pdu_body + 3 );
 
                     return true;
@@ -735,6 +735,7 @@ namespace link_layer {
         ll_result handle_ll_control_data( const write_buffer& pdu, read_buffer output );
         // TODO Make handle_pending_ll_control() impossible to fail by checking PDUs immediately
         ll_result handle_pending_ll_control( std::uint16_t instance );
+        void defer_ll_control_pdu( const write_buffer& pdu );
 
         // An instant is in the past if ( instant - connEventCount ) modulo 65536 is greater than or equal to 32767.
         // min_distance is the number of connection events an instant has to be ahead of the current connection event at least.
@@ -833,6 +834,9 @@ namespace link_layer {
         delta_time                      procedure_timeout_;
         std::uint16_t                   defered_conn_event_counter_;
         write_buffer                    defered_ll_control_pdu_;
+        // copy of the defered PDU: the receive buffer is reused while the PDU waits for its instant.
+        // The largest PDU to be defered is LL_CONNECTION_UPDATE_IND
+        std::uint8_t                    defered_ll_control_pdu_storage_[ layout_t::data_channel_pdu_memory_size( 12u ) ];
         connection_data_t               connection_data_;
         bool                            termination_send_;
         std::uint16_t                   used_features_;
@@ -1564,7 +1568,7 @@ namespace link_layer {
                 }
                 else
                 {
-                    defered_ll_control_pdu_ = pdu;
+                    defer_ll_control_pdu( pdu );
                 }
             }
             else if ( opcode == LL_TERMINATE_IND && size == 2 )
@@ -1603,7 +1607,7 @@ namespace link_layer {
                 }
                 else
                 {
-                    defered_ll_control_pdu_ = pdu;
+                    defer_ll_control_pdu( pdu );
                 }
             }
             else if ( opcode == LL_PING_REQ && size == 1 )
@@ -1746,6 +1750,15 @@ namespace link_layer {
         }
 
         return result;
+    }
+
+    template < class Server, template < std::size_t, std::size_t, class > class ScheduledRadio, typename ... Options >
+    void link_layer< Server, ScheduledRadio, Options... >::defer_ll_control_pdu( const write_buffer& pdu )
+    {
+        const std::size_t size = std::min( pdu.size, sizeof( defered_ll_control_pdu_storage_ ) );
+
+        std::copy( pdu.buffer, pdu.buffer + size, &defered_ll_control_pdu_storage_[ 0 ] );
+        defered_ll_control_pdu_ = write_buffer{ &defered_ll_control_pdu_storage_[ 0 ], size };
     }
 
     template < class Server, template < std::size_t, std::size_t, class > class ScheduledRadio, typename ... Options >
